@@ -15,7 +15,8 @@ from props.c20funcs import FUN
 ID = "C20"
 RULE = ("Segments over the node types DaskStream re-implements (map, starmap, accumulate with / "
         "without start and returns_state, zip of two scattered inputs, buffer, partition, "
-        "sliding_window, union) wrapped in scatter() ... gather(), 1-2 entries, <= 12 integer "
+        "sliding_window, union) wrapped in scatter() ... gather(), 1-2 entries, <= 12 integer (in a "
+        "quarter of the single-entry cases: tuple / list / frozenset / range, also empty) "
         "inputs, each carrying a RefCounter; task functions sleep a value-dependent 0-16 ms so "
         "the in-process cluster (Client(processes=False), 4 threads) finishes tasks out of "
         "submission order. Differential oracle: the sink sequence equals that of the same spec "
